@@ -729,7 +729,7 @@ fn run_case(l: &mut Local, watch: &Watch, wk: &Work, lib: &Lib, extra: Option<&F
         json!({"root": String::from_utf8_lossy(&bytes), "max_depth": case.max_depth})
     });
     for (k, d) in &mism {
-        l.violation(k, case_json(case, &env, &exp, &obs, d));
+        crate::report(l, k, || case_json(case, &env, &exp, &obs, d));
     }
 }
 
@@ -893,10 +893,10 @@ pub fn run(ctx: &'static Ctx) -> ! {
                     }
                 } else {
                     for l1 in &lp_all {
-                        units.push(Unit::S2 { preamble, pre: pre.clone(), o1, l1: *l1, l2s: lp_quick.clone(), post_len: 1 });
+                        units.push(Unit::S2 { preamble, pre: pre.clone(), o1, l1: *l1, l2s: lp_small.clone(), post_len: 1 });
                     }
                     for l1 in &lp_small {
-                        units.push(Unit::S2 { preamble, pre: pre.clone(), o1, l1: *l1, l2s: lp_small.clone(), post_len: 2 });
+                        units.push(Unit::S2 { preamble, pre: pre.clone(), o1, l1: *l1, l2s: lp_special.clone(), post_len: 1 });
                     }
                 }
             }
@@ -912,7 +912,7 @@ pub fn run(ctx: &'static Ctx) -> ! {
                 for c in chunked(mids_with(&lp_all), 49) {
                     units.push(Unit::S3 { preamble, pre: pre.clone(), origins: all_origins.clone(), mids: c, post_len: 1 });
                 }
-                for c in chunked(mids_with(&lp_quick), 21) {
+                for c in chunked(mids_with(&lp_small), 21) {
                     units.push(Unit::S3 { preamble, pre: pre.clone(), origins: all_origins.clone(), mids: c, post_len: 2 });
                 }
             }
@@ -1061,18 +1061,68 @@ fn depth_family(l: &mut Local, watch: &Watch, wk: &Work, lib: &Lib, lib_name: &s
 
 // ------------------------------------------------------------------ replay
 
+fn replace_all(hay: &[u8], from: &[u8], to: &[u8]) -> Vec<u8> {
+    let mut out = Vec::with_capacity(hay.len());
+    let mut i = 0;
+    while i < hay.len() {
+        if !from.is_empty() && hay[i..].starts_with(from) {
+            out.extend_from_slice(to);
+            i += from.len();
+        } else {
+            out.push(hay[i]);
+            i += 1;
+        }
+    }
+    out
+}
+
+/// A case recorded by the watchdog: only the root file is known; the library
+/// and the worker directory are rebuilt (their contents are deterministic).
+fn replay_hang(ctx: &'static Ctx, case: &Value) {
+    let lib = build_lib();
+    let wk = work(&lib);
+    let old_lib = Path::new(case["lib_dir"].as_str().unwrap_or("")).file_name().map(|n| n.to_os_string()).unwrap_or_default();
+    let new_lib = lib.dir.file_name().unwrap().to_os_string();
+    let mut root = qvlib::unhex(case["root"].as_str().unwrap_or(""));
+    root = replace_all(&root, old_lib.as_bytes(), new_lib.as_bytes());
+    root = replace_all(&root, case["work_dir"].as_str().unwrap_or("\0").as_bytes(), wk.dir.to_str().unwrap().as_bytes());
+    wk.write_root(&root);
+    let max_depth = case["max_depth"].as_u64().unwrap_or(0) as usize;
+    let path = wk.dir.join("root.zone");
+    eprintln!("replay: root file =\n{}", String::from_utf8_lossy(&root));
+    match watch::run_with_timeout(move || observe(&path, max_depth).map(|o| (o.lines.len(), format!("{:?}", o.term)))) {
+        None => {
+            eprintln!("replay: did not terminate within {} s", watch::LIMIT.as_secs());
+            ctx.violation("hang", case.clone());
+        }
+        Some(Err(p)) => {
+            eprintln!("replay: panic {p}");
+            ctx.violation(&panic_key(&p), case.clone());
+        }
+        Some(Ok((n, end))) => eprintln!("replay: terminated with {n} lines, end {end}"),
+    }
+}
+
 fn replay(ctx: &'static Ctx, case: Value) {
+    if case["family"] == "hang" {
+        replay_hang(ctx, &case);
+        return;
+    }
     // Rebuild the recorded tree below a fresh directory and re-run; the
     // expected value is the one stored in the case (the oracle's output for
     // that tree), with paths re-rooted.
     let dir = new_dir("replay");
     let empty = Vec::new();
+    let old_base = format!("{}/", case["base"].as_str().unwrap_or("/var/tmp/qverif"));
+    let new_base = format!("{}/", dir.display());
     for f in case["files"].as_array().unwrap_or(&empty) {
         let at = dir.join(f["at"].as_str().unwrap_or("x"));
         if let Some(p) = at.parent() {
             let _ = std::fs::create_dir_all(p);
         }
-        std::fs::write(&at, qvlib::unhex(f["content"].as_str().unwrap_or(""))).expect("write replay file");
+        // absolute include paths written in the files point into the old tree
+        let content = replace_all(&qvlib::unhex(f["content"].as_str().unwrap_or("")), old_base.as_bytes(), new_base.as_bytes());
+        std::fs::write(&at, content).expect("write replay file");
     }
     let root = dir.join(case["root"].as_str().unwrap_or("root.zone"));
     let max_depth = case["max_depth"].as_u64().unwrap_or(0) as usize;
